@@ -128,8 +128,11 @@ theorem eqFields_vseq (hle0 : ∀ k, le k [] [] = true) (m : Mem) : ∀ (ts : Ty
       subst e1; subst e2
       have ih2 := eqFields_vseq hle0 m ts _ bd' h a b vas' vbs' h2 h4
       simp only [eqFields, hl, vseq, ih2]
-      by_cases hz : l.get_size = 0
-      · have : veq le va vb = true := zero_size_veq le hle0 m t l hl hz _ _ va vb h1 h3
+      by_cases hz : noIrValue t = true
+      · have hz0 : l.get_size = 0 := by
+          simp only [noIrValue, sizeZero, hl, Bool.and_eq_true, beq_iff_eq] at hz
+          exact hz.2
+        have : veq le va vb = true := zero_size_veq le hle0 m t l hl hz0 _ _ va vb h1 h3
         simp [hz, this]
       · have ih1 := eqTy_veq hle0 m t l hl _ _ va vb h1 h3
         simp only [add_snd] at ih1
@@ -199,7 +202,7 @@ theorem eqFields_eq_visits (le : LeafKind → List Nat → List Nat → Bool) (m
     eqFields le m ts bd a b =
       (eqRecordLoop ts i bd).all (fun v =>
         match layoutOf v.2.2 with
-        | some l => if l.get_size = 0 then true else eqTy le m v.2.2 (a + v.2.1) (b + v.2.1)
+        | some _ => if noIrValue v.2.2 then true else eqTy le m v.2.2 (a + v.2.1) (b + v.2.1)
         | none => true)
   | .nil, i, bd, a, b => by simp [eqFields, eqRecordLoop]
   | .cons t ts, i, bd, a, b => by
